@@ -43,10 +43,11 @@ PROPS = {
                 "any previous line: the rewritten row of whole pixels keeps length, alpha bytes and every non-transparent pixel; the colour written is exactly colour-bytes long - alphaColour_length); "
                 "RowKeep is reflexive and transitive and optimizeAlpha_chain_rowKeep: the heuristic strategies' successive rewrites of one mutable row by any list of trial filters give a kept row; rows_keep_visible (rows related row by row => "
                 "sameVisiblePicture of the whole image); filterLinesStdAlpha_spec (filter_image with alpha, standard strategies, modelled and compared byte for byte: what is written is the plain "
-                "filtering of the rewritten rows - so C19's round trip returns exactly them - and they are kept versions of the original rows). Still by correspondence + oracle only: the alpha-flagged "
-                "reductions (colour key chosen for transparent pixels, blackened palette entries) and the heuristic strategies' choice loop itself.",
+                "filtering of the rewritten rows - so C19's round trip returns exactly them - and they are kept versions of the original rows). reduced_palette_visible and indexed_to_channels_visible (with alpha optimisation these two are the plain reduction of the image whose fully "
+                "transparent palette entries are blackened - proved as equalities - and blackening changes only invisible colour). Still by correspondence + oracle only: reduced_alpha_channel "
+                "with the alpha flag (a colour key chosen for the transparent pixels) and which candidate a heuristic strategy picks.",
         "technique": "Lean 4 proof (induction over the pixel loop) + correspondence + e2e oracle",
-        "partial_note": "alpha-flagged reductions (key choice, blackened palette) and the heuristic strategies' choice loop rest on correspondence + oracle",
+        "partial_note": "reduced_alpha_channel with the alpha flag (key choice) rests on correspondence + oracle",
         "rule": "filter_line with alpha_bytes in {1,2} on rows with random transparent runs (all / none / mixed) for the five filters; e2e with optimize_alpha=true; distinct as C01",
     },
     "C08": {
